@@ -10,17 +10,16 @@ META = dict(
     technique='Lean 4 theorems about an executable model of VerifyTransaction (crypto primitives as parameters) '
               '+ differential correspondence against the real TxPool.VerifyTransaction / eth_tx code with crypto oracle fields',
     level_text='proof',
-    level_note='36 Lean theorems about the executable model of VerifyTransaction that the driver runs; crypto '
+    level_note='58 Lean theorems about the executable model of VerifyTransaction that the driver runs; crypto '
                'primitives are parameters (soundness ends in explicit collision / second-signature witnesses); '
                'two clauses are false of the code and proved partial with counterexamples (unprotected v=27/28 '
                'payloads, recovery-id alias of Sign) and recorded as known findings; one defect fixed '
                '(non-canonical payload).',
     trusted_base=['Lean 4 kernel', 'Go harness harness/cmd/c07 (oracle tokens, generators)',
-                  'SHA-256, Keccak-256, secp256k1 recover/verify (cgo) are parameters of the model, sampled only'],
+                  'SHA-256, Keccak-256 and the curve operations of libsecp256k1 (point recovery, ECDSA equation) are parameters of the model, sampled only; the range / low-s / recovery-id logic around them is modelled', 'C08 RLP model and theorems (payload codec), C18 Decimal and C09 Json models (ConvertTx renderings)'],
     assumptions=['the model equals the code only as far as the correspondence run and the T-gen shape facts establish',
                  'SHA-256 / Keccak-256 collision resistance and ECDSA unforgeability are never assumed: they appear as '
                  'disjuncts (collision witness, second valid signature for the same address)',
-                 'libsecp256k1 rejects high-s signatures in verify (sampled every run, not proved)',
                  'hooks/c07 fix commit (canonical payload check in verifyETHTx) is applied to the tree under check'],
     rule='distinct vt/conv op lines sent to both implementation and model whose model answer is not bad-op',
     explanation='native: accepted <=> chain id is the chain\'s, hash = SHA-256 of the 8-field concatenation, Sign recovers a '
